@@ -1,3 +1,4 @@
+import re
 import argparse, importlib, json, os, sys, time, traceback
 from common import *
 import scratch, kani_run, verus_run, findings, mutation
@@ -111,6 +112,16 @@ def check(pid, tier, only=None):
                 if r.status == "undecided":
                     broken.append("%s: %s" % (o["name"], r.reason))
                 elif r.status == "failure":
+                    if o.get("only_checks"):
+                        # this obligation only answers for a subset of the harness's checks (e.g. C06 reuses the C01
+                        # arithmetic harnesses but only for panic-freedom, not for the value oracle)
+                        mine = [c for c in r.failed if re.search(o["only_checks"], c.get("description") or "")]
+                        rec["failed_checks_not_mine"] = [c for c in r.failed if c not in mine]
+                        if not mine:
+                            rec["status"] = "success"
+                            rec["note"] = "harness failed only on checks that belong to another property's clause"
+                            continue
+                        r.failed = mine
                     rec["failed_checks"] = r.failed
                     kf = next((k for k in known if k["kind"] == "known" and k.get("obligation") == o["name"]), None)
                     if kf:
